@@ -117,6 +117,7 @@ func init() {
 		"strings.TrimSpace":       stubTrimSpace,
 		"(*net.TCPAddr).AddrPort": stubAddrPort,
 		"(*net.UDPAddr).AddrPort": stubAddrPort,
+		"net/netip.AddrFromSlice": stubAddrFromSlice,
 		"errors.As":               stubErrorsAs,
 		"errors.Unwrap":           stubErrorsUnwrap,
 		"fmt.Errorf":              stubErrorf,
@@ -1161,59 +1162,54 @@ func stubAddrPort(e *Engine, c *callCtx) bool {
 	ip := o.fields[fieldIndex(o.typ, "IP")].(SliceV)
 	port := o.fields[fieldIndex(o.typ, "Port")].(IntV)
 	res := e.zeroVal(rt).(StructV)
-	addr := res.f[0].(StructV)
+	addr, _ := e.netipAddr(c.st, ip, res.f[0].(StructV))
+	res.f = []Value{addr, e.iconv(port, 16, false)}
+	c.set(res)
+	return true
+}
+
+// netipAddr builds the netip.Addr that netip.AddrFromSlice returns for ip (zero is the zero Addr of that type).
+func (e *Engine) netipAddr(st *State, ip SliceV, zero StructV) (StructV, bool) {
 	sentinel := func(name string) Value {
-		if c.st.ghost == nil {
-			c.st.ghost = map[string]Value{}
+		if st.ghost == nil {
+			st.ghost = map[string]Value{}
 		}
-		if v, ok := c.st.ghost["netip:"+name]; ok {
+		if v, ok := st.ghost["netip:"+name]; ok {
 			return v
 		}
-		id := e.newObj(c.st, &Object{kind: kStruct, typ: e.rtypeType(), fields: []Value{StrV{k: strLit, lit: name}}})
+		id := e.newObj(st, &Object{kind: kStruct, typ: e.rtypeType(), fields: []Value{StrV{k: strLit, lit: name}}})
 		v := PtrV{id, -1}
-		c.st.ghost["netip:"+name] = v
+		st.ghost["netip:"+name] = v
 		return v
 	}
 	n := int64(0)
 	if ip.obj != 0 {
 		var ok bool
 		if n, ok = constInt(ip.ln); !ok {
-			panic(hardErr("AddrPort on an IP of symbolic length"))
+			panic(hardErr("netip address from an IP of symbolic length"))
 		}
 	}
-	if n == 4 || n == 16 {
-		canon, _ := e.ipCanon(c.st, ip)
-		z := "z6noz"
-		if n == 4 {
-			z = "z4"
-		}
-		u := addr.f[0].(StructV)
-		u.f = []Value{IntV{e.packBytes(canon[:8]), 64, false}, IntV{e.packBytes(canon[8:]), 64, false}}
-		h := addr.f[1].(StructV)
-		h.f = []Value{sentinel(z)}
-		addr.f = []Value{u, h}
+	if n != 4 && n != 16 {
+		return zero, false
 	}
-	pt := e.iconv(port, 16, false)
-	res.f = []Value{addr, pt}
-	c.set(res)
-	return true
+	canon, _ := e.ipCanon(st, ip)
+	z := "z6noz"
+	if n == 4 {
+		z = "z4"
+	}
+	u := zero.f[0].(StructV)
+	u.f = []Value{IntV{e.packBytes(canon[:8]), 64, false}, IntV{e.packBytes(canon[8:]), 64, false}}
+	h := zero.f[1].(StructV)
+	h.f = []Value{sentinel(z)}
+	return StructV{f: []Value{u, h}}, true
 }
 
-func stubIOCopy(e *Engine, c *callCtx) bool {
-	if c.st.ghost == nil {
-		c.st.ghost = map[string]Value{}
-	}
-	n, _ := c.st.ghost["io_copy_calls"].(IntV)
-	if n.t == nil {
-		n = e.goInt(0)
-	}
-	c.st.ghost["io_copy_calls"] = e.ibin(token.ADD, n, e.goInt(1))
-	if c.callee.Blocks == nil {
-		panic(hardErr("no SSA for " + c.name))
-	}
-	e.sawFunc(c.name)
-	e.pushFrame(c.st, c.callee, c.args, nil, c.res)
-	return false
+// netip.AddrFromSlice(b) (Addr, bool)
+func stubAddrFromSlice(e *Engine, c *callCtx) bool {
+	rt := c.callee.Signature.Results().At(0).Type()
+	addr, ok := e.netipAddr(c.st, c.args[0].(SliceV), e.zeroVal(rt).(StructV))
+	c.set(TupleV{addr, BoolV{e.tb.Bool(ok)}})
+	return true
 }
 
 // strings.TrimSpace: computed on literals; on an opaque string the result is an arbitrary string that is a
@@ -1240,4 +1236,21 @@ func stubTrimSpace(e *Engine, c *callCtx) bool {
 	c.st.ghost[key] = v
 	c.set(v)
 	return true
+}
+
+func stubIOCopy(e *Engine, c *callCtx) bool {
+	if c.st.ghost == nil {
+		c.st.ghost = map[string]Value{}
+	}
+	n, _ := c.st.ghost["io_copy_calls"].(IntV)
+	if n.t == nil {
+		n = e.goInt(0)
+	}
+	c.st.ghost["io_copy_calls"] = e.ibin(token.ADD, n, e.goInt(1))
+	if c.callee.Blocks == nil {
+		panic(hardErr("no SSA for " + c.name))
+	}
+	e.sawFunc(c.name)
+	e.pushFrame(c.st, c.callee, c.args, nil, c.res)
+	return false
 }
